@@ -206,3 +206,156 @@ func init() {
 		fmt.Printf("inline: %d frames, signatures %v\n", x.cases, x.seen)
 	}
 }
+
+// mode replybuf (C13 / C14): several value-carrying replies batched into the connection's 4096-byte writer buffer. One case = one
+// connection (net.Pipe, the real BinaryServerProtocol.Process): a LOCK stores a value whose frame is F bytes long, then k
+// show-when-locked LOCKs arrive in ONE write, so their replies (64-byte result + the F-byte value frame each) are queued back to back.
+// F is swept through the windows in which the j-th reply just fits / just does not fit behind the ones queued before it.
+// Monitors: the connection goroutine must not panic (C13), every reply must carry the whole value, the connection must still answer (C14).
+func vReplyBufRun(t *testing.T) {
+	out := vOpen("replybuf")
+	defer out.close()
+	env := vThNewEnv()
+	x := &vInlRun{out: out, seen: map[string]int{}}
+	thorough := vEnvInt("VERIF_N", 10) > 50
+	type cs struct{ k, f int }
+	var cases []cs
+	add := func(k, lo, hi, step int) {
+		for f := lo; f <= hi; f += step {
+			cases = append(cases, cs{k, f})
+		}
+	}
+	step := 3
+	if thorough {
+		step = 1
+	}
+	add(2, 1976, 2024, step)
+	add(3, 1296, 1330, step)
+	add(4, 952, 984, step)
+	add(5, 742, 770, step)
+	add(2, 3900, 4040, 7) // a single reply close to the buffer size (the direct-write rule: value + 128 >= buffer)
+	keyNo := 0
+	for _, c := range cases {
+		keyNo++
+		sc, cc := net.Pipe()
+		bp := NewBinaryServerProtocol(env.v.slock, NewStream(sc))
+		panicked := make(chan string, 1)
+		go func(p *BinaryServerProtocol) {
+			defer func() {
+				if r := recover(); r != nil {
+					panicked <- fmt.Sprint(r)
+				}
+			}()
+			_ = p.Process()
+		}(bp)
+		payload := make([]byte, c.f-6)
+		for i := range payload {
+			payload[i] = byte('a' + (i+keyNo)%26)
+		}
+		data := protocol.NewLockCommandDataSetData(payload)
+		mk := func(req int, flag uint8) *protocol.LockCommand {
+			cmd := &protocol.LockCommand{}
+			cmd.Magic, cmd.Version, cmd.CommandType = protocol.MAGIC, protocol.VERSION, protocol.COMMAND_LOCK
+			cmd.RequestId = vId16(900000 + keyNo*16 + req)
+			cmd.LockId = vId16(900000 + keyNo*16 + req)
+			cmd.LockKey = vId16(7000000 + keyNo)
+			cmd.Flag, cmd.Timeout, cmd.Expried = flag, 0, 600
+			return cmd
+		}
+		replay := map[string]interface{}{"mode": "replybuf", "pipelined": c.k, "value_frame_bytes": c.f}
+		readReply := func() (*protocol.LockResultCommand, []byte, error) {
+			b := make([]byte, 64)
+			_ = cc.SetReadDeadline(time.Now().Add(1500 * time.Millisecond))
+			if _, err := io.ReadFull(cc, b); err != nil {
+				return nil, nil, err
+			}
+			res := &protocol.LockResultCommand{}
+			if err := res.Decode(b); err != nil {
+				return nil, nil, err
+			}
+			if res.Flag&protocol.UNLOCK_FLAG_CONTAINS_DATA == 0 {
+				return res, nil, nil
+			}
+			h := make([]byte, 4)
+			if _, err := io.ReadFull(cc, h); err != nil {
+				return res, nil, err
+			}
+			n := int(h[0]) | int(h[1])<<8 | int(h[2])<<16 | int(h[3])<<24
+			if n < 0 || n > 1<<20 {
+				return res, nil, fmt.Errorf("value frame length %d", n)
+			}
+			rest := make([]byte, n)
+			if _, err := io.ReadFull(cc, rest); err != nil {
+				return res, nil, err
+			}
+			return res, append(h, rest...), nil
+		}
+		fail := func(sig, what string) {
+			select {
+			case p := <-panicked:
+				x.report("C13:reply-writer-panics", fmt.Sprintf("the connection goroutine panics while queueing %d pipelined replies with a %d-byte value frame each: %s", c.k, c.f, p), replay)
+			default:
+				x.report(sig, what, replay)
+			}
+		}
+		// 1. store the value
+		first := mk(0, protocol.LOCK_FLAG_CONTAINS_DATA)
+		first.Data = data
+		fb := make([]byte, 64)
+		_ = first.Encode(fb)
+		_ = cc.SetWriteDeadline(time.Now().Add(2 * time.Second))
+		if _, err := cc.Write(append(fb, data.Data...)); err != nil {
+			fail("C14:replybuf-no-answer", "the LOCK that stores the value is not taken")
+			_ = cc.Close()
+			continue
+		}
+		if res, _, err := readReply(); err != nil || res.Result != 0 {
+			fail("C14:replybuf-no-answer", fmt.Sprintf("the LOCK that stores the value is not answered with SUCCED (%v)", err))
+			_ = cc.Close()
+			continue
+		}
+		// 2. k show requests in one write
+		var wire []byte
+		for j := 1; j <= c.k; j++ {
+			b := make([]byte, 64)
+			_ = mk(j, protocol.LOCK_FLAG_SHOW_WHEN_LOCKED).Encode(b)
+			wire = append(wire, b...)
+		}
+		_ = cc.SetWriteDeadline(time.Now().Add(2 * time.Second))
+		_, _ = cc.Write(wire)
+		okAll := true
+		for j := 1; j <= c.k && okAll; j++ {
+			res, val, err := readReply()
+			switch {
+			case err != nil:
+				okAll = false
+				fail("C14:replybuf-reply-lost", fmt.Sprintf("reply %d of %d pipelined show requests does not arrive intact (%v)", j, c.k, err))
+			case val == nil || len(val) != len(data.Data) || string(val[6:]) != string(payload):
+				okAll = false
+				fail("C14:replybuf-value-corrupted", fmt.Sprintf("reply %d of %d (result %d) carries a value frame of %d bytes, stored were %d", j, c.k, res.Result, len(val), len(data.Data)))
+			}
+		}
+		// 3. still served?
+		if okAll {
+			u := mk(0, 0)
+			u.CommandType = protocol.COMMAND_UNLOCK
+			ub := make([]byte, 64)
+			_ = u.Encode(ub)
+			_ = cc.SetWriteDeadline(time.Now().Add(2 * time.Second))
+			_, _ = cc.Write(ub)
+			if _, _, err := readReply(); err != nil {
+				fail("C14:replybuf-no-answer", fmt.Sprintf("after the pipelined replies the connection does not answer an UNLOCK (%v)", err))
+			}
+		}
+		x.cases++
+		rec := fmt.Sprintf("# replybuf k=%d f=%d ok=%v", c.k, c.f, okAll)
+		out.emit(rec, rec)
+		out.stat(fmt.Sprintf("pipelined=%d", c.k))
+		_ = cc.Close()
+	}
+	fmt.Printf("replybuf: %d cases, signatures %v\n", x.cases, x.seen)
+}
+
+func init() {
+	vModes["replybuf"] = vReplyBufRun
+}
